@@ -116,6 +116,13 @@ Theorem C03g_link_re_class_of_set :
 Proof. exact link_re_class_of_set. Qed.
 Print Assumptions C03g_link_re_class_of_set.
 
+Theorem C03g_link_make :
+  forall (fuel i : nat) (k : BaseRegLan),
+       node_ok fuel k ->
+       option_map conv_re (M_RE_make fuel i k) = Some (mk_node (N.of_nat i) (conv_base k)).
+Proof. exact link_make. Qed.
+Print Assumptions C03g_link_make.
+
 (* ---- recomputed attributes of a well-formed term are the cached ones; the nullable test is exact ---- *)
 
 Theorem C03g_is_nullable_cached :
@@ -173,3 +180,13 @@ Theorem C03g_example :
            {| CharSet_start := 98; CharSet_end := 98 |}], 0) /\ node_ok 20 u.
 Proof. exact g_example. Qed.
 Print Assumptions C03g_example.
+
+Theorem C03g_make_root_wf :
+  forall (fuel i : nat) (k : BaseRegLan) (e : RE),
+       node_ok fuel k ->
+       M_RE_make fuel i k = Some e ->
+       rnul (conv_re e) = k_nullable (rnode (conv_re e)) /\
+       rcls (conv_re e) = k_class (rnode (conv_re e)) /\
+       rid (conv_re e) = N.of_nat i /\ rnode (conv_re e) = conv_base k.
+Proof. exact g_make_root_wf. Qed.
+Print Assumptions C03g_make_root_wf.
